@@ -33,7 +33,8 @@ def main():
     res = {"seed_id": a.seed_id, "property": a.prop, "agent_meta": meta, "ran": []}
     try:
         py = "/venv/bin/python"
-        rc0, out0 = sh([py, str(sd / "demo.py")], cwd=wt)
+        denv = dict(os.environ, PYTHONPATH=str(wt))
+        rc0, out0 = sh([py, str(sd / "demo.py")], cwd=wt, env=denv)
         res["demo_on_clean"] = {"exit": rc0, "tail": out0.strip().splitlines()[-1:] }
         rc, out = sh(["git", "-C", str(wt), "apply", str(sd / "patch.diff")])
         res["patch_applies"] = rc == 0
@@ -49,7 +50,7 @@ def main():
         if not a.skip_tests:
             rc, out = sh([py, "-m", "pytest", "-q", "-p", "no:cacheprovider", "-x"], cwd=wt)
             res["pytest"] = {"exit": rc, "summary": out.strip().splitlines()[-1] if out.strip() else ""}
-        rc1, out1 = sh([py, str(sd / "demo.py")], cwd=wt)
+        rc1, out1 = sh([py, str(sd / "demo.py")], cwd=wt, env=denv)
         res["demo_with_change"] = {"exit": rc1, "tail": out1.strip().splitlines()[-1:]}
         res["confirmed"] = bool(rc0 == 0 and rc1 != 0 and (a.skip_tests or res["pytest"]["exit"] == 0))
         for prop in (a.checks.split(",") if a.checks else [a.prop]):
